@@ -247,7 +247,7 @@ func vpH_C08_req() {
 		fs = []*ReqFilter{{Kinds: []int64{vpInt64("fkind")}, Limit: &l}, {Authors: []string{"A"}}}
 	}
 	ss.handleRecvMsg(&ClientReqMsg{SubscriptionID: "s", ReqFilters: fs})
-	steps := vpSteps(4, 5)
+	steps := 4 // both tiers (5 steps with 2..3 children ran past an hour; the thorough tier adds a third child)
 	childEOSE := make([]bool, n)
 	eoseSeen, closed := false, false
 	var fwd []*Event
